@@ -194,9 +194,14 @@ func (e *Eval) invoke(fr *Frame, cc *ssa.CallCommon, args []Val, st *State, cur,
 	if n, ok := types.Unalias(it).(*types.Named); ok && n.Obj().Pkg() != nil {
 		pkg = e.p.prog.Package(n.Obj().Pkg())
 	}
-	// ghost call log
-	e.ghostCount(st, "$ncalls")
-	e.ghostCount(st, "$n."+ifaceShort(it)+"."+cc.Method.Name())
+	// ghost call log ($ncalls counts every backend call except Close, which
+	// is a matter of the reference counts, C05)
+	if ifaceShort(it) == "File" || ifaceShort(it) == "Attacher" {
+		if cc.Method.Name() != "Close" {
+			e.ghostCount(st, "$ncalls")
+		}
+		e.ghostCount(st, "$n."+ifaceShort(it)+"."+cc.Method.Name())
+	}
 	return e.applyContract(fr, k, pkg, pnames, ptypes, rnames, sig, args, st, cur, site)
 }
 
